@@ -37,6 +37,27 @@ pub mod __fqsim {
         }
     }
 
+    /// `clock(sleep_ns) -> Some(simulated nanoseconds since the episode began)` for a simulated
+    /// task, `None` for any other thread (which then reads the real clock). A non-zero
+    /// `sleep_ns` advances simulated time by that much first (`thread::sleep`).
+    pub type Clock = fn(u64) -> Option<u64>;
+
+    static CLOCK: AtomicUsize = AtomicUsize::new(0);
+
+    pub fn install_clock(c: Clock) {
+        CLOCK.store(c as usize, Ordering::SeqCst);
+    }
+
+    #[inline]
+    pub fn clock(sleep_ns: u64) -> Option<u64> {
+        let p = CLOCK.load(Ordering::Relaxed);
+        if p != 0 {
+            let c: Clock = unsafe { rcore::mem::transmute::<usize, Clock>(p) };
+            return c(sleep_ns);
+        }
+        None
+    }
+
     /// Returns true if the simulator descheduled the caller (so retrying makes sense),
     /// false if the caller should fall back to really blocking.
     #[inline]
